@@ -48,9 +48,9 @@ VARIABLES l,        \* cursor into Rec (next event to consume)
 
 vars == <<l, cap, lanes, anon, nsend, arcs, closedA, endedA, th, cons, dead>>
 
-Threads == 1..8 \cup {200}
+Threads == 1..8 \cup {100, 200}        \* producers, the consumer (only for Receiver::drop), the stopper
 Prod    == 1..8
-Idle     == [st |-> "idle", kind |-> "", ids |-> <<>>, wb |-> FALSE, lin |-> FALSE, s |-> 0]
+Idle     == [st |-> "idle", kind |-> "", ids |-> <<>>, wb |-> FALSE, lin |-> FALSE, s |-> 0, open |-> TRUE, cl |-> FALSE]
 ConsIdle == [st |-> "idle", id |-> 0, res |-> "", want |-> 0]
 
 Ev == Rec[l]
@@ -86,7 +86,10 @@ Reset ==
 
 SendStart ==
   /\ IsEv("send_start") /\ th[Ev.th].st = "idle" /\ Consume
-  /\ th' = [th EXCEPT ![Ev.th] = [st |-> "send", kind |-> Ev.kind, ids |-> Ev.ids, wb |-> FALSE, lin |-> FALSE, s |-> l]]
+  \* open: the queue was not yet known to be closed when this call started (pipeline.rs: Receiver::drop closes it
+  \* under the sender; a call that starts after that drop has returned must be refused)
+  /\ th' = [th EXCEPT ![Ev.th] = [st |-> "send", kind |-> Ev.kind, ids |-> Ev.ids, wb |-> FALSE, lin |-> FALSE, s |-> l,
+                                   open |-> ~closedA, cl |-> FALSE]]
   /\ UNCHANGED <<cap, lanes, anon, nsend, arcs, closedA, endedA, cons, dead>>
 
 \* queue sample x of thread t (anonymous once the consumer is gone)
@@ -96,7 +99,7 @@ Queue(t, x, base, banon) ==
 
 \* linearisation of one push: the head load that decides "full?"
 LinPush(t) ==
-  /\ th[t].st = "send" /\ th[t].ids # <<>>
+  /\ th[t].st = "send" /\ th[t].ids # <<>> /\ th[t].open
   /\ LET x == Head(th[t].ids) IN
      IF Count < cap
      THEN /\ Queue(t, x, lanes, anon)
@@ -125,10 +128,17 @@ LinOverflow(t) ==
   /\ th' = [th EXCEPT ![t].st = "send", ![t].ids = Tail(@)]
   /\ UNCHANGED <<l, cap, nsend, arcs, closedA, endedA, cons, dead>>
 
+\* the closed check at the start of send / try_send saw the flag set: nothing is queued
+LinRefused(t) ==
+  /\ th[t].st = "send" /\ th[t].ids # <<>> /\ closedA /\ nsend > 0            \* closed by the receiver, sender alive
+  /\ th' = [th EXCEPT ![t].ids = <<>>, ![t].cl = TRUE]
+  /\ UNCHANGED <<l, cap, lanes, anon, nsend, arcs, closedA, endedA, cons, dead>>
+
 SendEnd ==
   /\ IsEv("send_end") /\ Consume
   /\ th[Ev.th].st = "send" /\ th[Ev.th].ids = <<>>
-  /\ Ev.res = (IF th[Ev.th].wb THEN "WouldBlock" ELSE "Ok")
+  /\ \/ Ev.res = (IF th[Ev.th].cl THEN "Closed" ELSE IF th[Ev.th].wb THEN "WouldBlock" ELSE "Ok")
+     \/ Ev.res = "Rejected" /\ (th[Ev.th].cl \/ th[Ev.th].wb)                  \* SampleQueueSender::try_send: Err(sample)
   /\ th' = [th EXCEPT ![Ev.th] = Idle]
   \* the samples this call queued now carry the position of its end
   /\ lanes' = [lanes EXCEPT ![Ev.th] = [i \in 1..Len(@) |-> IF @[i].e = 0 THEN [@[i] EXCEPT !.e = l] ELSE @[i]]]
@@ -159,6 +169,13 @@ LinDrop(t) ==
           /\ closedA' = (closedA \/ nsend = 1)
   /\ th' = [th EXCEPT ![t].lin = TRUE]
   /\ UNCHANGED <<l, cap, lanes, anon, endedA, cons, dead>>
+
+\* Drop for SampleQueueReceiver
+LinRDrop(t) ==
+  /\ th[t].st = "rdrop" /\ ~th[t].lin
+  /\ closedA' = TRUE
+  /\ th' = [th EXCEPT ![t].lin = TRUE]
+  /\ UNCHANGED <<l, cap, lanes, anon, nsend, arcs, endedA, cons, dead>>
 
 LinStop(t) ==
   /\ th[t].st = "stop" /\ ~th[t].lin
@@ -208,19 +225,21 @@ Teardown ==
 
 ---------------------------------------------------------------------------
 
-NextIsEnd == l <= N /\ Rec[l].ev \in {"send_end", "recv_end", "clone_end", "drop_end", "stop_end", "teardown"}
+NextIsEnd == l <= N /\ Rec[l].ev \in {"send_end", "recv_end", "clone_end", "drop_end", "stop_end", "rdrop_end", "teardown"}
 
 TraceNext ==
   \/ Reset \/ Teardown \/ SendStart \/ SendEnd \/ RecvStart \/ RecvEnd
   \/ CallStart("clone_start", "clone") \/ CallEnd("clone_end", "clone")
   \/ CallStart("drop_start", "drop")   \/ CallEnd("drop_end", "drop")
   \/ CallStart("stop_start", "stop")   \/ CallEnd("stop_end", "stop")
+  \/ CallStart("rdrop_start", "rdrop") \/ CallEnd("rdrop_end", "rdrop")
   \* Linearisation points are placed lazily, in a block right before the next END event: moving one later across
   \* START events of other calls changes nothing (a start only needs its own thread to be idle), so every
   \* explanation has an equivalent one of this shape and the search stays small.
   \/ /\ NextIsEnd
      /\ \/ LinRecv
-        \/ \E t \in Threads : LinPush(t) \/ LinOverflow(t) \/ LinClone(t) \/ LinDrop(t) \/ LinStop(t)
+        \/ \E t \in Threads : LinPush(t) \/ LinOverflow(t) \/ LinRefused(t) \/ LinClone(t) \/ LinDrop(t) \/ LinStop(t)
+                              \/ LinRDrop(t)
 
 TraceSpec == TraceInit /\ [][TraceNext]_vars
 
